@@ -581,7 +581,16 @@ fn _close_upvalues<T>(vm: &mut Vm<T>, top: *const Value) -> ExecutionResult {
     Ok(())
 }
 
-pub fn close_upvalues<T>(vm: &mut Vm<T>) -> ExecutionResult {
-    let top = vm.runtime_data.value_stack.top_location();
-    _close_upvalues(vm, top)
+/// Closes the upvalues that refer to the local variable `index` of the current frame or to slots
+/// above it
+pub fn close_upvalues<T>(vm: &mut Vm<T>, bytecode: &[u8], instr_ptr: &mut usize) -> ExecutionResult {
+    let index: u32 = unsafe { decode_value(bytecode, instr_ptr) };
+    let offset = stack_offset(vm);
+    let location = vm
+        .runtime_data
+        .value_stack
+        .as_slice()
+        .as_ptr()
+        .wrapping_add(offset + index as usize);
+    _close_upvalues(vm, location)
 }
